@@ -165,6 +165,109 @@ mod imp {
         Ok(())
     }
 
+    /// A runtime built by the case itself (built-ins plus custom functions, some
+    /// registered after the built-ins, some deregistered again) is shared by
+    /// reference; its very first searches happen concurrently.  Every result must
+    /// equal the sequential result of an identically built twin runtime.
+    pub fn custom_runtime(src: &mut Src, st: &mut Stats, _env: &Env) -> CaseResult {
+        use jmespath::{Context, Rcvar, Runtime, Variable};
+        // the registration script
+        let names = ["tag", "zz_last", "aa_first", "length", "mid_fn", "tag2"];
+        let mut script: Vec<(u8, usize)> = vec![];
+        let builtins_at = src.below(4);
+        for i in 0..(2 + src.below(6)) {
+            if i == builtins_at {
+                script.push((2, 0));
+            }
+            script.push((if src.chance(40) { 1 } else { 0 }, src.below(names.len())));
+        }
+        if !script.iter().any(|x| x.0 == 2) {
+            script.push((2, 0));
+            if src.flip() {
+                script.push((0, src.below(names.len())));
+            }
+        }
+        let build = |script: &[(u8, usize)]| -> Runtime {
+            let mut rt = Runtime::new();
+            for (k, (op, n)) in script.iter().enumerate() {
+                match op {
+                    0 => {
+                        let tag = format!("{}#{}", names[*n], k);
+                        rt.register_function(names[*n], Box::new(move |args: &[Rcvar], _: &mut Context<'_>| Ok(Rcvar::new(Variable::String(format!("{}/{}", tag, args.len()))))));
+                    }
+                    1 => {
+                        let _ = rt.deregister_function(names[*n]);
+                    }
+                    _ => rt.register_builtin_functions(),
+                }
+            }
+            rt
+        };
+        let rt = build(&script);
+        let twin = build(&script);
+        let exprs: Vec<String> = (0..(2 + src.below(6)))
+            .map(|_| {
+                let f = *src.pick(&names);
+                match src.below(7) {
+                    0 => format!("{}(@)", f),
+                    1 => format!("{}(n, s)", f),
+                    2 => format!("[{}(n), length(s), abs(n)]", f),
+                    3 => format!("objs[*].{}(@)", f),
+                    4 => "never_registered(@)".to_string(),
+                    5 => format!("{}(s) && sort_by(objs, &n)[0].s", f),
+                    _ => format!("map(&{}(@), nums)", f),
+                }
+            })
+            .collect();
+        let doc_text = schema_doc(src).to_json();
+        let doc: jmespath::Rcvar = Arc::new(Variable::from_json(&doc_text).unwrap());
+        let compile_all = |r: &'_ Runtime| -> Vec<Option<String>> { exprs.iter().map(|e| r.compile(e).ok().map(|c| outcome(c.search(&doc)))).collect() };
+        let want = compile_all(&twin);
+        let compiled: Vec<Option<jmespath::Expression<'_>>> = exprs.iter().map(|e| rt.compile(e).ok()).collect();
+        let n_threads = 2 + src.below(15);
+        st.eval();
+        let barrier = Barrier::new(n_threads);
+        let bad: Mutex<Vec<String>> = Mutex::new(vec![]);
+        let panicked = std::thread::scope(|sc| {
+            let hs: Vec<_> = (0..n_threads)
+                .map(|ti| {
+                    let (barrier, compiled, doc, want, bad, exprs, rt) = (&barrier, &compiled, &doc, &want, &bad, &exprs, &rt);
+                    sc.spawn(move || {
+                        barrier.wait();
+                        for round in 0..3 {
+                            for k in 0..exprs.len() {
+                                let i = (k + ti) % exprs.len();
+                                let got = if round == 1 { rt.compile(&exprs[i]).ok().map(|c| outcome(c.search(doc))) } else { compiled[i].as_ref().map(|c| outcome(c.search(doc))) };
+                                if got != want[i] {
+                                    bad.lock().unwrap().push(format!("thread {} {:?}: got {:?}, sequential {:?}", ti, exprs[i], got, want[i]));
+                                    return;
+                                }
+                            }
+                        }
+                    })
+                })
+                .collect();
+            hs.into_iter().map(|h| h.join().is_err()).any(|x| x)
+        });
+        let hist: Vec<String> = script.iter().map(|(op, n)| match op { 0 => format!("register {}", names[*n]), 1 => format!("deregister {}", names[*n]), _ => "register_builtin_functions".to_string() }).collect();
+        let case = json!({"registrations": hist, "expressions": exprs, "document": doc_text, "threads": n_threads});
+        if panicked {
+            return Err(Failure::new("custom-runtime", "panic-in-thread", "a worker thread panicked".into(), case));
+        }
+        let bad = bad.into_inner().unwrap();
+        if let Some(b) = bad.first() {
+            return Err(Failure::new("custom-runtime", "concurrent-result-differs-from-sequential", format!("{} threads diverged; first: {}", bad.len(), clip(b, 300)), case));
+        }
+        if compile_all(&rt) != want {
+            return Err(Failure::new("custom-runtime", "sequential-result-changed-after-concurrent-run", "results after the run differ".into(), case));
+        }
+        st.class_n("custom-runtime:searches", (n_threads * 3 * exprs.len()) as u64);
+        if st.nontrivial(&case.to_string()) {
+            st.sample(|| json!({"registrations": hist, "threads": n_threads, "expressions": exprs}));
+        }
+        Ok(())
+    }
+
     /// Contention: many threads (up to 32) repeat the SAME deep or long-running search on
     /// shared data for a while, so that at every instant most threads are deep inside the
     /// interpreter; every single result must equal the sequential one.
@@ -396,6 +499,7 @@ pub fn property() -> Property {
         Sub::Custom(CustomSub { name: "typelevel", run: typelevel, replay: replay_typelevel }),
         Sub::Bytes(BytesSub { name: "workload", f: imp::workload, max_len: 3000, quick: Budget { threads: 2, cases: 400 }, thorough: Budget { threads: 2, cases: 15_000 }, keep_unreproducible: true }),
         Sub::Bytes(BytesSub { name: "contention", f: imp::contention, max_len: 2500, quick: Budget { threads: 1, cases: 60 }, thorough: Budget { threads: 1, cases: 2000 }, keep_unreproducible: true }),
+        Sub::Bytes(BytesSub { name: "custom-runtime", f: imp::custom_runtime, max_len: 1200, quick: Budget { threads: 1, cases: 600 }, thorough: Budget { threads: 1, cases: 20_000 }, keep_unreproducible: true }),
         Sub::Custom(CustomSub { name: "first-use", run: imp::first_use, replay: imp::replay_first_use }),
         Sub::Custom(CustomSub { name: "tsan", run: imp::tsan, replay: imp::replay_tsan }),
     ];
